@@ -21,3 +21,4 @@ import Gittuf.Props.C04b
 #print axioms Gittuf.RSL.C04_latest_asis_false
 #print axioms Gittuf.RSL.readyLog_run
 #print axioms Gittuf.RSL.C04_latest_refines_reachable
+#print axioms Gittuf.RSL.C04_first_refines_reachable
